@@ -4,11 +4,12 @@
 import json, os, subprocess, sys
 
 def main():
+    repo = sys.argv[1] if len(sys.argv) > 1 else "/repo"
     env = dict(os.environ, GOFLAGS="-mod=mod", GOPROXY="off", GOSUMDB="off", GOTOOLCHAIN="local")
     base = json.load(open("/root/.vp/BASELINE.json"))
     want = set(base["stable_pass"])
     p = subprocess.Popen(["go", "test", "-json", "-vet=off", "-count=1", "-timeout", "25m", "./..."],
-                         cwd="/repo", env=env, stdout=subprocess.PIPE, stderr=subprocess.DEVNULL, text=True)
+                         cwd=repo, env=env, stdout=subprocess.PIPE, stderr=subprocess.DEVNULL, text=True)
     passed = set()
     failed = set()
     for line in p.stdout:
@@ -37,7 +38,7 @@ def main():
             rel = "./" + pkg.split("github.com/kardiachain/go-kardia/", 1)[1]
             q = subprocess.run(["go", "test", "-json", "-vet=off", "-count=1", "-run",
                                 "^(" + "|".join(sorted(names)) + ")$", rel],
-                               cwd="/repo", env=env, stdout=subprocess.PIPE, stderr=subprocess.DEVNULL, text=True)
+                               cwd=repo, env=env, stdout=subprocess.PIPE, stderr=subprocess.DEVNULL, text=True)
             for line in q.stdout.splitlines():
                 try:
                     ev = json.loads(line)
